@@ -115,6 +115,9 @@ def cases(rng, tier):
         ver = rng.choice((4, 6))
         w = gens.W[ver]
         bp = w - rng.randint(2, 10)
+        coarse = rng.random() < 0.2          # a coarse base (/0 .. /40): requests stay within 10 prefix bits of the base
+        if coarse:
+            bp = rng.randint(0, 40 if ver == 6 else 22)
         where = rng.choice(["bottom", "top", "mid"])
         size = 1 << (w - bp)
         if where == "bottom":
@@ -130,15 +133,19 @@ def cases(rng, tier):
             k = rng.random()
             if k < 0.75:
                 q = rng.choice([rng.randint(bp, w), rng.randint(bp, w), min(w, bp + rng.randint(0, 3)), bp - 1, bp, w])
+                if coarse:
+                    q = rng.choice([bp + rng.randint(0, 10), bp + rng.randint(0, 3), bp, bp - 1, bp + 1])
                 mx = 1 << max(0, q - bp)
                 c = rng.choice([None, None, 1, 1, 2, 3, 5, 6, 7, mx, mx + 1, 0, max(1, mx - 1)])
+                if coarse and q - bp > 10:
+                    c = rng.choice([1, 2, 3, 5, 7])
                 ops.append(["extract", q, c])
             elif k < 0.93:
                 ops.append(["remove_ix", rng.randrange(8)])
             else:
-                q = rng.randint(bp, w)
+                q = rng.randint(bp, min(w, bp + 12) if coarse else w)
                 rv = ((v >> (w - q)) << (w - q)) + rng.choice([0, 1 << (w - q)])
                 if rv > 2 ** w - 1:
-                    rv -= 2 << (w - q) if q else 0
+                    rv = (v >> (w - q)) << (w - q)       # no neighbour above: the block itself
                 ops.append(["remove", max(0, rv), q])
         yield ("c20_history", [ver, v, bp, ops], "history")
